@@ -151,6 +151,25 @@ func greeting(tier string) []runner.Unit {
 			}
 		}})
 	}
+	// the same with an application that talks to the Mux directly (no socks5 request in front): the
+	// server's greeting really is the first thing written on the session, and whether the client's
+	// first low-entropy data arrives before or after it is decided by one datagram fault (UDP) or
+	// one scheduling deviation (TCP)
+	for _, udp := range []bool{true, false} {
+		udp := udp
+		us = append(us, runner.Unit{Name: fmt.Sprintf("raw-greeting-then-reply-udp=%v", udp), Split: true, Cost: 4, Run: func(u *runner.U) {
+			for i, pn := range []string{"le32", "le48-R15"} {
+				p := xfer.Params{Prop: "C14", UDP: udp, MTU: 1400, Latency: 5 * time.Millisecond, CW: []int{40, 40}, SW: []int{6, 5000}, RB: 65536,
+					CTP: pn, STP: pn, NSess: 1, Seed: int64(1300 + i), WriteGap: 300 * time.Millisecond, Raw: true}
+				b := explore.Bound{Ds: 1}
+				if udp {
+					p.Faults = true
+					b = explore.Bound{De: 1}
+				}
+				xfer.RunOne(u, p, pats, b, wire.MonitorC14)
+			}
+		}})
+	}
 	return us
 }
 
